@@ -3,50 +3,85 @@
 From PV Require Import C09.Spec C09.Lib.
 From PV Require Export C09.ProofsNet C09.ProofsDisk C09.ProofsSys C09.ProofsUsage.
 
+(* the named-tuple definitions found in the code (coq/Gen/C09_Tables.v, regenerated on every run)
+   are the documented ones, in the documented order *)
+Lemma fields_documented :
+  gen_snetio_fields = map fst (nt_nic nic_zero) /\
+  gen_snetio_fields = [bs "bytes_sent"; bs "bytes_recv"; bs "packets_sent"; bs "packets_recv";
+                       bs "errin"; bs "errout"; bs "dropin"; bs "dropout"] /\
+  gen_sdiskio_fields = map fst (nt_disk disk_zero) /\
+  gen_sdiskio_fields = [bs "read_count"; bs "write_count"; bs "read_bytes"; bs "write_bytes";
+                        bs "read_time"; bs "write_time";
+                        bs "read_merged_count"; bs "write_merged_count"; bs "busy_time"] /\
+  gen_sdiskusage_fields = [bs "total"; bs "used"; bs "free"; bs "percent"] /\
+  gen_disk_sector_size = 512.
+Proof. repeat split; reflexivity. Qed.
+
 Lemma net_pernic sp l :
   wf_nics l = true ->
   net_io_counters true (k_netdev sp l)
-  = Val (RDict (map (fun i => (n_name i, nt_nic (spec_nic i))) l)).
+  = XV (Val (RDict (map (fun i => (dec (n_name i), nt_nic (spec_nic i))) l))).
 Proof. exact (net_exact sp l true). Qed.
 
 Lemma net_total sp l :
   wf_nics l = true ->
   net_io_counters false (k_netdev sp l)
-  = Val (match l with [] => RNone | _ => RTuple (nt_nic (nic_sum (map spec_nic l))) end).
+  = XV (Val (match l with [] => RNone | _ => RTuple (nt_nic (nic_sum (map spec_nic l))) end)).
 Proof. exact (net_exact sp l false). Qed.
 
 Lemma disk_perdisk sb l :
   wf_disks l = true -> no_l24 l = true ->
   disk_io_counters true sb (ProcDiskstats (k_diskstats l))
-  = Val (RDict (map (fun d => (d_name d, nt_disk (spec_disk d))) l)).
-Proof. intros H1 H2. exact (disk_exact sb l true H1 H2 (or_introl eq_refl)). Qed.
+  = Val (RDict (map (fun d => (dec (d_name d), nt_disk (spec_disk d))) l)).
+Proof. intros H1 H2. exact (disk_exact sb l true H1 H2). Qed.
 
 Lemma disk_total sb l :
+  wf_disks l = true -> no_l24 l = true ->
+  disk_io_counters false sb (ProcDiskstats (k_diskstats l))
+  = Val (match filter (listed sb) l with
+         | [] => RNone
+         | ws => RTuple (nt_disk (disk_sum (map spec_disk ws)))
+         end).
+Proof. intros H1 H2. exact (disk_exact sb l false H1 H2). Qed.
+
+Lemma disk_total_whole sb l :
   wf_disks l = true -> no_l24 l = true -> sysblock_agrees sb l = true ->
   disk_io_counters false sb (ProcDiskstats (k_diskstats l))
   = Val (match filter d_whole l with
          | [] => RNone
          | ws => RTuple (nt_disk (disk_sum (map spec_disk ws)))
          end).
-Proof. intros H1 H2 H3. exact (disk_exact sb l false H1 H2 (or_intror H3)). Qed.
+Proof. intros H1 H2 H3. rewrite (disk_total sb l H1 H2), (listed_whole sb l H3). reflexivity. Qed.
 
 Lemma disk_all_layouts sb l perdisk :
-  wf_disks l = true -> perdisk = true \/ sysblock_agrees sb l = true ->
+  wf_disks l = true ->
   disk_io_counters perdisk sb (ProcDiskstats (k_diskstats l))
-  = Val (if perdisk then RDict (map (fun d => (d_name d, nt_disk (model_view d))) l)
-         else match filter d_whole l with
+  = Val (if perdisk then RDict (map (fun d => (dec (d_name d), nt_disk (model_view d))) l)
+         else match filter (listed sb) l with
               | [] => RNone
               | ws => RTuple (nt_disk (disk_sum (map model_view ws)))
               end).
 Proof. exact (disk_model_exact sb l perdisk). Qed.
 
+Lemma disk_total_no_double_count sb own parent f l :
+  wf_disks l = true -> no_l24 l = true -> filter (listed sb) l <> [] ->
+  linear f -> kernel_shaped sb own parent (fun d => f (spec_disk d)) l ->
+  exists total,
+    disk_io_counters false sb (ProcDiskstats (k_diskstats l)) = Val (RTuple (nt_disk total))
+    /\ f total = zsum (map own l).
+Proof.
+  intros H1 H2 Hne Hlin Hk. exists (disk_sum (map spec_disk (filter (listed sb) l))). split.
+  - rewrite (disk_total sb l H1 H2). destruct (filter (listed sb) l); [congruence|reflexivity].
+  - exact (no_double_count sb own parent f l Hlin Hk).
+Qed.
+
 (* the /sys/block listing that belongs to a device list agrees with it when no two names
    collide after the '/' -> '!' rewriting *)
 Lemma sysblock_of_agrees l :
-  NoDup (map (fun d => sysfs_name (d_name d)) l) -> sysblock_agrees (sysblock_of l) l = true.
+  NoDup (map (fun d => sysfs_name (dec (d_name d))) l) -> sysblock_agrees (sysblock_of l) l = true.
 Proof.
   intros Hnd. unfold sysblock_agrees. rewrite forallb_forall. intros d Hd.
-  apply Bool.eqb_true_iff. unfold sysblock_of.
+  apply Bool.eqb_true_iff. unfold listed, sysblock_of.
   destruct (d_whole d) eqn:Hw.
   - apply existsb_exists. exists d. split; [exact Hd|]. now rewrite Hw, beqb_refl.
   - destruct (existsb _ l) eqn:E; [|reflexivity]. exfalso.
